@@ -1,6 +1,6 @@
 (** C11 - Equal is JSON value equality. *)
 From Coq Require Import List NArith ZArith QArith Bool.
-From JS Require Import Str Json JsonFacts GoValue Equal EqualFacts EqualSpec.
+From JS Require Import Str Json JsonFacts JeqClauses GoValue Equal EqualFacts EqualSpec.
 Import ListNotations.
 
 Theorem C11 : forall x y, gv_wf x = true -> gv_wf y = true ->
@@ -23,6 +23,22 @@ Print Assumptions C11_transitive.
 Theorem C11_jeq_equivalence : (forall a, jeq a a) /\ (forall a b, jeq a b -> jeq b a) /\ (forall a b c, jeq a b -> jeq b c -> jeq a c).
 Proof. exact (conj jeq_refl (conj jeq_sym jeq_trans)). Qed.
 Print Assumptions C11_jeq_equivalence.
+
+(** the clauses of the statement, one per kind of JSON value: null only equals null, booleans
+    and strings by value, numbers by mathematical value, arrays element-wise in order, objects
+    as unordered sets of key/value pairs; values of different kinds are never equal *)
+Theorem C11_clauses :
+  (forall v, jeq JNull v <-> v = JNull) /\
+  (forall b c, jeq (JBool b) (JBool c) <-> b = c) /\
+  (forall x y, jeq (JNum x) (JNum y) <-> Qeq x y) /\
+  (forall s t, jeq (JStr s) (JStr t) <-> s = t) /\
+  (forall l1 l2, jeq (JArr l1) (JArr l2) <-> Forall2 jeq l1 l2) /\
+  (forall m1 m2, jeq (JObj m1) (JObj m2) <->
+     (forall k, lookup k m1 = None <-> lookup k m2 = None) /\
+     (forall k v1 v2, lookup k m1 = Some v1 -> lookup k m2 = Some v2 -> jeq v1 v2)) /\
+  (forall a b, jeq a b -> jkind_of a = jkind_of b).
+Proof. exact jeq_clauses. Qed.
+Print Assumptions C11_clauses.
 
 Example C11_example :
   (* an int64 beyond 2^53 vs its float neighbour; an object with permuted members in different map types *)
